@@ -166,7 +166,8 @@ class World:
         names = [PRIMARY[self.backend]]
         pc = os.path.join(self.bld, 'pkgconfig')
         if os.path.isdir(pc):
-            names += ['pkgconfig/' + n for n in sorted(os.listdir(pc))]
+            # (a *.tmp left behind by a killed atomic write is litter, not a declared output)
+            names += ['pkgconfig/' + n for n in sorted(os.listdir(pc)) if not n.endswith('.tmp')]
         for n in names:
             p = os.path.join(self.bld, n)
             try:
